@@ -381,7 +381,7 @@ func (fr *frame) lookup(instr *ssa.Lookup) value {
 	return nil
 }
 
-func (p *path) rangeIter(x value, t types.Type) value {
+func (p *path) rangeIter(fr *frame, x value, t types.Type) value {
 	switch x := x.(type) {
 	case *smap:
 		it := &mapIter{m: x}
@@ -389,6 +389,17 @@ func (p *path) rangeIter(x value, t types.Type) value {
 			it.order = append(it.order, x.keys...)
 		}
 		it.permute = p.cfg.PermuteMaps
+		if it.permute && p.cfg.Params["VF.permuteOwnPkg"] > 0 && fr != nil {
+			// only the map ranges written in the package of the harness are varied (the others are
+			// the subject of other harnesses)
+			root := fr
+			for root.caller != nil {
+				root = root.caller
+			}
+			if fr.fn.Pkg == nil || root.fn.Pkg == nil || fr.fn.Package() != root.fn.Package() {
+				it.permute = false
+			}
+		}
 		if it.permute && p.cfg.PermuteSingle && len(it.order) > 1 {
 			// single-site variation: at most one map range per path leaves the reference order
 			if p.permUsed {
